@@ -28,7 +28,9 @@ UNIT = dict(
         text_subs=[(r'\(\(float\)\((\w+)\) \* \(float\)\((-self->m_divisor)\)\)', r'UF_MUL((float)(\1), (float)(\2))'),
                    (r'\(\(float\)\((\w+)\) / \(float\)\((self->m_divisor)\)\)', r'UF_DIV((float)(\1), (float)(\2))'),
                    (r'val \*= \(float\)\(-self->m_divisor\);', 'val = UF_MUL(val, (float)(-self->m_divisor));'),
-                   (r'val /= \(float\)\(self->m_divisor\);', 'val = UF_DIV(val, (float)(self->m_divisor));')],
+                   (r'val /= \(float\)\(self->m_divisor\);', 'val = UF_DIV(val, (float)(self->m_divisor));'),
+                   (r'= \(float\)\((\w+)\) \* \(float\)\((-self->m_divisor)\);', r'= UF_MUL((float)(\1), (float)(\2));'),
+                   (r'= \(float\)\((\w+)\) / \(float\)\((self->m_divisor)\);', r'= UF_DIV((float)(\1), (float)(\2));')],
     ),
     functions=[
         dict(_inl, name='hasFlag', cname='DataType_hasFlag', static=True),
@@ -40,6 +42,7 @@ UNIT = dict(
     runs=[],
 )
 UNIT['functions'] += [
+    dict(file=DT_CPP, name='NumberDataType::getFloatFromRawValue', cname='NDT_getFloatFromRawValue', self='NDT'),
     dict(file=DT_CPP, name='NumberDataType::readSymbols', cname='NDT_readSymbols', self='NDT',
          cfg=dict(own_methods={'readRawValue': ('glue_readRawValue', 'self'), 'readFromRawValue': ('glue_readFromRawValue', 'self')}, text_subs=[(r'glue_readRawValue\(self, offset, length, \(\*input\), &value\)', 'glue_readRawValue(self, offset, length, input, &value)')])),
     dict(file=DT_CPP, name='NumberDataType::writeSymbols', cname='NDT_writeSymbols', self='NDT',
@@ -55,3 +58,4 @@ def R(id, entry, enforce=None, replace=(), loops=False, props=('C05', 'C12', 'C2
 
 R('render', 'h_render', None, unwind=6, defines=['SS_CAP=8'], cost=60, timeout=1200)
 R('glue', 'h_glue', None, unwind=6, defines=['SS_CAP=8'], cost=5, props=('C05', 'C06', 'C07', 'C20'))
+R('float_raw', 'h_float_raw', None, unwind=6, defines=['SS_CAP=8'], cost=20, props=('C05', 'C20'))
